@@ -38,8 +38,9 @@ use server_fn::{
     client::Client,
     codec::*,
     error::{FromServerFnError, NoCustomError, ServerFnErrorErr, ServerFnUrlError},
+    middleware::{BoxedService, Layer, Service},
     request::{ClientReq, Req},
-    response::{generic::Body, ClientRes},
+    response::{generic::Body, ClientRes, Res},
     server::Server,
     ContentType, Decodes, Encodes, Format, FormatType, Http, ServerFn, ServerFnError, ServerFnTraitObj,
 };
@@ -437,6 +438,20 @@ struct Transport {
     canned: Option<(u16, Vec<u8>)>,
     req_mut: Option<Mutn>,
     res_mut: Option<Mutn>,
+    /// send the request like a browser `<form>` does: `Accept: text/html` and this `Referer`
+    form: Option<Option<String>>,
+}
+
+/// the last raw response seen by the transport: status, `Location`, body
+#[derive(Clone, Default)]
+struct RawRes {
+    status: u16,
+    location: Option<String>,
+    body: Vec<u8>,
+}
+
+thread_local! {
+    static LAST_RES: RefCell<Option<RawRes>> = RefCell::new(None);
 }
 
 thread_local! {
@@ -461,7 +476,14 @@ const NOT_FOUND: &str = "no server function registered for this path and method"
 async fn dispatch(req: Request<Bytes>) -> Response<Body> {
     let key = (req.uri().path().to_string(), req.method().clone());
     match registry().get(&key) {
-        Some(obj) => obj.clone().handler(SReq(req)).await,
+        // as `server_fn::axum::get_server_fn_service` does: box the function, wrap it in its middleware
+        Some(obj) => {
+            let mut service = obj.clone().boxed();
+            for layer in obj.middleware() {
+                service = layer.layer(service);
+            }
+            service.run(SReq(req)).await
+        }
         None => Response::builder().status(400).body(Body::from(NOT_FOUND.to_string())).unwrap(),
     }
 }
